@@ -263,7 +263,12 @@ class Impl:
                 kw['quantity'] = [qty_str(q) for q in m['qs']]
             if 'total' in m:
                 kw['total_quantity'] = qty_str(m['total'])
-            solutes = [self.subs[s] for s in op['solutes']]
+            # the caller's own list object, handed over again whenever the same solutes are named (an operation must not change it)
+            if not hasattr(self, '_lists'):
+                self._lists = {}
+            solutes = self._lists.setdefault(tuple(op['solutes']), [self.subs[s] for s in op['solutes']])
+            if [id(x) for x in solutes] != [id(self.subs[s]) for s in op['solutes']]:
+                raise AssertionError(f"the list of solutes passed to an earlier create_solution was changed by it: now {[x.name for x in solutes]}")
             if k == 'solution':
                 return [(op['out'], Container.create_solution(solutes, self.subs[op['solvent']], f"c{op['name']}", **kw))]
             a, b = Container.create_solution(solutes, self.env[op['solventv']], f"c{op['name']}", **kw)
